@@ -158,6 +158,11 @@ fn unhex(s: &str) -> Vec<u8> {
 }
 
 fn main() {
+    // a panic anywhere (bad scenario) must end the process, never leave the driver waiting
+    std::panic::set_hook(Box::new(|i| {
+        eprintln!("mdw-target panic: {i}");
+        std::process::abort();
+    }));
     let path = std::env::args().nth(1).unwrap_or_else(|| {
         eprintln!("usage: mdw-target <scenario.json>");
         std::process::exit(2)
@@ -184,7 +189,7 @@ fn main() {
 
     // ---- memory regions
     let mut regions = serde_json::Map::new();
-    let mut region_addr = std::collections::HashMap::<String, (usize, usize)>::new();
+    let mut region_addr = std::collections::HashMap::<String, (usize, usize, usize, usize)>::new();
     for r in cfg.get("regions").and_then(|v| v.as_array()).cloned().unwrap_or_default() {
         let name = r["name"].as_str().unwrap_or("r").to_string();
         let len = r["len"].as_u64().unwrap_or(PAGE as u64) as usize;
@@ -199,7 +204,7 @@ fn main() {
         if r["exec"].as_bool().unwrap_or(false) {
             unsafe { libc::mprotect(inner as *mut _, pages.max(1) * PAGE, libc::PROT_READ | libc::PROT_EXEC) };
         }
-        region_addr.insert(name.clone(), (start, len));
+        region_addr.insert(name.clone(), (start, len, inner, pages.max(1) * PAGE));
         regions.insert(name, json!({"addr": start, "len": len, "map_start": inner, "map_len": pages.max(1) * PAGE}));
     }
     report["regions"] = Value::Object(regions);
@@ -311,7 +316,7 @@ fn set_comm(name: &[u8]) {
     unsafe { libc::prctl(libc::PR_SET_NAME, buf.as_ptr() as usize, 0, 0, 0) };
 }
 
-fn thread_main(slot: usize, t: Value, regions: std::collections::HashMap<String, (usize, usize)>, tx: std::sync::mpsc::Sender<(usize, Value)>) {
+fn thread_main(slot: usize, t: Value, regions: std::collections::HashMap<String, (usize, usize, usize, usize)>, tx: std::sync::mpsc::Sender<(usize, Value)>) {
     let tid = unsafe { libc::syscall(libc::SYS_gettid) } as u64;
     if let Some(n) = t.get("name_hex").and_then(|v| v.as_str()) {
         set_comm(&unhex(n));
@@ -355,8 +360,19 @@ fn thread_main(slot: usize, t: Value, regions: std::collections::HashMap<String,
         let at = (sp as i64 + w[0].as_i64().unwrap_or(0)) as usize; // byte offset relative to sp
         let val: u64 = match &w[1] {
             Value::Object(o) => {
-                let (a, _) = regions.get(o["region"].as_str().unwrap_or("")).copied().unwrap_or((0, 0));
-                (a as i64 + o.get("off").and_then(|x| x.as_i64()).unwrap_or(0)) as u64
+                let g = |k: &str| o.get(k).and_then(|v| v.as_str()).and_then(|n| regions.get(n)).copied();
+                let base = if let Some((a, _, _, _)) = g("region") {
+                    a
+                } else if let Some((a, l, _, _)) = g("region_end") {
+                    a + l
+                } else if let Some((_, _, m, _)) = g("region_map") {
+                    m
+                } else if let Some((_, _, m, ml)) = g("region_map_end") {
+                    m + ml
+                } else {
+                    0
+                };
+                (base as i64 + o.get("off").and_then(|x| x.as_i64()).unwrap_or(0)) as u64
             }
             Value::String(s) => u64::from_str_radix(s.trim_start_matches("0x"), 16).unwrap_or(0),
             v => v.as_i64().map(|x| x as u64).or(v.as_u64()).unwrap_or(0),
@@ -376,7 +392,7 @@ fn thread_main(slot: usize, t: Value, regions: std::collections::HashMap<String,
         sent.insert(n.to_string(), json!(format!("{:x}", tbl[i])));
     }
     tbl[12] = sp as u64;
-    if let Some((a, _)) = t.get("spin_word").and_then(|v| v.as_str()).and_then(|n| regions.get(n)) {
+    if let Some((a, _, _, _)) = t.get("spin_word").and_then(|v| v.as_str()).and_then(|n| regions.get(n)) {
         tbl[13] = *a as u64;
     }
     for x in 0..16 {
